@@ -263,6 +263,18 @@ func c03Targets() []c03Target {
 					}
 				}
 				if k == 0 {
+					// a frame of ANOTHER phone that passes the check code but is rejected inside the header decoder: the fragment bit is
+					// set and the two package fields are missing
+					q3 := q
+					q3.BCD = append([]byte{}, q.BCD...)
+					q3.BCD[n-1] ^= 0x11
+					q3.Fragmented = false
+					q3.Body = nil
+					pm := ref.Payload(q3)
+					pm[2] |= 0x20
+					out = append(out, ref.Escape(c02Fix(pm)))
+				}
+				if k == 0 {
 					// the same frame with ONE byte of the phone field changed (checksum rebuilt): consecutive valid inputs that differ
 					// in a single header byte (whatever a decoder remembers about the previous phone gets a near-identical successor)
 					for _, pos := range []int{0, 1, n / 2, n - 1} {
@@ -653,7 +665,8 @@ func c03Worker(c *core.Collector, x *Ctx) {
 		ver := jobs[ji].ver
 		g := gen.G{Rand: core.NewRand(c.Seed, "c03/"+t.Name, uint64(ver))}
 		gh := core.NewRand(c.Seed, "c03h/"+t.Name, uint64(ver)*16+uint64(jobs[ji].k))
-		var history [][]byte // recent inputs on which parsing succeeded: priming material for the reused receiver
+		var history [][]byte // recent inputs (mostly ones on which parsing succeeded): priming material for the reused receiver
+		var explicitPrior [][]byte
 		inputIx := -1
 		do := func(in []byte, mutated bool, genName string) {
 			inputIx++
@@ -661,8 +674,12 @@ func c03Worker(c *core.Collector, x *Ctx) {
 				return
 			}
 			var prior [][]byte
-			for k := gh.Intn(3) + 1; k > 0 && len(history) > 0; k-- {
-				prior = append(prior, history[gh.Intn(len(history))])
+			if explicitPrior != nil {
+				prior = explicitPrior
+			} else {
+				for k := gh.Intn(3) + 1; k > 0 && len(history) > 0; k-- {
+					prior = append(prior, history[gh.Intn(len(history))])
+				}
 			}
 			cs := c03Case{Kind: "c03", Target: t.Name, Version: int(ver), Input: "", Gen: genName}
 			slots[si].desc.Store(c03Case{Kind: "c03", Target: t.Name, Version: int(ver), Input: core.HexCap(in, 2048), Gen: genName})
@@ -689,6 +706,8 @@ func c03Worker(c *core.Collector, x *Ctx) {
 			}
 			if succeeded {
 				parsedOK.Add(1)
+			}
+			if succeeded || (explicitPrior == nil && gh.Chance(1, 6)) { // a rejected input now and then: what a failed parse leaves behind
 				if len(history) < 24 {
 					history = append(history, in)
 				} else {
@@ -774,6 +793,25 @@ func c03Worker(c *core.Collector, x *Ctx) {
 				do(append(append(append([]byte{}, s[:i]...), g.U8()), s[i:]...), true, "insert")
 				do(append(append([]byte{}, s[:i]...), s[i+1:]...), true, "delete")
 			}
+		}
+		// residue of earlier parses: the receiver parses seed A, then another seed or a REJECTED piece of it (a prefix: fields were
+		// being filled in when the parser gave up; for frames also well-formed-looking frames the decoder rejects late), then A
+		// again — the last outcome must be that of a fresh receiver
+		{
+			lim := min(len(seeds), 10)
+			for i := 0; i < lim; i++ {
+				for j := 0; j < lim; j++ {
+					if i == j {
+						continue
+					}
+					s2 := seeds[j]
+					for _, r := range [][]byte{s2, s2[:len(s2)/2], s2[:max(len(s2)-1, 0)]} {
+						explicitPrior = [][]byte{seeds[i], r}
+						do(seeds[i], false, "A-other-A")
+					}
+				}
+			}
+			explicitPrior = nil
 		}
 		// TLV sweeps
 		switch t.TypeName {
